@@ -434,8 +434,27 @@ def add_sharing(s, root):
                     if leaf[0] == "task":
                         collect(leaf[1])
     collect(p)
+    lists = []
+
+    def collect_lists(t, top):
+        def walk(body, is_top):
+            lists.append((body, 1 if is_top else 0))
+            for st_ in body:
+                if st_["op"] in ("with", "try"):
+                    walk(st_["body"], False)
+                elif st_["op"] == "yield":
+                    for leaf in walk_struct(st_["y"]):
+                        if leaf[0] == "task":
+                            collect_lists(leaf[1], False)
+        walk(t["body"], top)
     p["body"].insert(0, {"op": "mk", "task": shared})
+    collect_lists(p, True)
     for _ in range(s.int(1, 3)):
+        if s.cfg.sync and s.chance(3):
+            # the shared task is computed synchronously (h.value()) by a task that did not create it
+            body, lo = lists[s.int(0, len(lists) - 1)]
+            body.insert(s.int(min(lo, len(body)), len(body)), {"op": "syncref", "tid": shared["id"], "catch": s.chance(2)})
+            continue
         st_ = spots[s.int(0, len(spots) - 1)]
         ref = ["ref", shared["id"]]
         st_["y"] = s.pick([["T", [st_["y"], ref]], ["L", [ref, st_["y"]]], ["D", [["p", st_["y"]], ["q", ref]]]])
